@@ -240,7 +240,7 @@ package bbolt
 //@   requires !tx.managed
 //@   requires tx.db != nil && tx.writable ==> tx.db.rwlock.held && tx.meta != nil && tx.db.freelist != nil
 //@   requires tx.db != nil && !tx.writable ==> tx.db.mmaplock.rcount >= 1 && tx.meta != nil && !tx.db.metalock.held
-//@   ensures [closedtx] old(tx.db) == nil ==> result == berrors.ErrTxClosed && (forall m *sync.Mutex :: m.held == old(m.held)) && (forall m *sync.RWMutex :: m.rcount == old(m.rcount))
+//@   ensures [closedtx] old(tx.db) == nil ==> result == berrors.ErrTxClosed && sameheap("sync.Mutex.held") && sameheap("sync.RWMutex.rcount")
 //@   ensures [ok] old(tx.db) != nil ==> result == nil
 //@   ensures [closed] tx.db == nil
 //@   ensures [unlocked] old(tx.db) != nil && old(tx.writable) ==> !old(tx.db).rwlock.held && old(tx.db).rwtx == nil
@@ -360,7 +360,7 @@ package bbolt
 //@   requires t.db != nil && !t.writable ==> t.db.mmaplock.rcount >= 1 && t.meta != nil && !t.db.metalock.held
 //@   ensures [rollback] old(t.db) != nil ==> calls("(*Tx).rollback", t) == old(calls("(*Tx).rollback", t)) + 1 && t.db == nil
 //@   ensures [unlocked] old(t.db) != nil && old(t.writable) ==> !old(t.db).rwlock.held
-//@   ensures [noop] old(t.db) == nil ==> calls("(*Tx).rollback", t) == old(calls("(*Tx).rollback", t)) && t.db == nil && (forall m *sync.Mutex :: m.held == old(m.held)) && (forall m *sync.RWMutex :: m.rcount == old(m.rcount))
+//@   ensures [noop] old(t.db) == nil ==> calls("(*Tx).rollback", t) == old(calls("(*Tx).rollback", t)) && t.db == nil && sameheap("sync.Mutex.held") && sameheap("sync.RWMutex.rcount")
 
 //@ func (*DB).View$1
 //@   props C03 C02
@@ -368,7 +368,7 @@ package bbolt
 //@   requires t.db != nil && t.writable ==> t.db.rwlock.held && t.meta != nil && t.db.freelist != nil && mapok(t)
 //@   requires t.db != nil && !t.writable ==> t.db.mmaplock.rcount >= 1 && t.meta != nil && !t.db.metalock.held
 //@   ensures [rollback] old(t.db) != nil ==> calls("(*Tx).rollback", t) == old(calls("(*Tx).rollback", t)) + 1 && t.db == nil
-//@   ensures [noop] old(t.db) == nil ==> calls("(*Tx).rollback", t) == old(calls("(*Tx).rollback", t)) && t.db == nil && (forall m *sync.Mutex :: m.held == old(m.held)) && (forall m *sync.RWMutex :: m.rcount == old(m.rcount))
+//@   ensures [noop] old(t.db) == nil ==> calls("(*Tx).rollback", t) == old(calls("(*Tx).rollback", t)) && t.db == nil && sameheap("sync.Mutex.held") && sameheap("sync.RWMutex.rcount")
 
 //@ func (*DB).Update
 //@   props C03 C08 C16
